@@ -290,9 +290,9 @@ def run(res):
     bins = core.build(VARIANTS)
     rng = core.rng_for(res.seed, "c09")
     texts = []
-    small = [(t, s) for t, s in tw.corpus_programs(res.seed, 300 if thorough else 40) if len(s) < 3000]
-    gens = tw.generated_programs(res.seed, 2500 if thorough else 250, max_depth=3)
-    exprs = tw.generated_expressions(res.seed, 2500 if thorough else 300)
+    small = [(t, s) for t, s in tw.corpus_programs(res.seed, 300 if thorough else 80) if len(s) < 3000]
+    gens = tw.generated_programs(res.seed, 2500 if thorough else 800, max_depth=3)
+    exprs = tw.generated_expressions(res.seed, 2500 if thorough else 1000)
     for tag, s in small + gens:
         if len(s) > 2500:
             continue
